@@ -14,3 +14,39 @@ package sql
 //@ func (*selectClause).addCrosshiftExpr
 //@   modifies *
 //@   loop 0 decreases limit - i
+
+// C16: duration literals inside a query (PERIOD, STRIDE, SHIFT, CROSSHIFT, ASOF/UNTIL offsets) come straight from the
+// client; ParseDuration answers every string with a duration or an error and never with a panic - every index and
+// slice of the text stays in range and the overflow test never divides by zero (every unit in unitMap is positive:
+// structural obligation sql_units_positive).
+//@ const_global unitMap: allvals_positive(unitMap)
+//@ func leadingInt
+//@   nopanic own
+//@   modifies nothing
+//@   loop 0 modifies nothing
+//@   loop 0 invariant idx: 0 <= i && i <= len(s)
+//@ func leadingFraction
+//@   nopanic own
+//@   modifies nothing
+//@   loop 0 modifies nothing
+//@   loop 0 invariant idx: 0 <= i && i <= len(s)
+//@ func ParseDuration
+//@   nopanic own
+//@   modifies nothing
+//@   loop 0 modifies nothing
+//@   loop 1 modifies nothing
+//@   loop 1 invariant idx: 0 <= i && i <= len(s)
+
+// C07: each bound of the query window is stored according to the form of ITS OWN text - an absolute UNTIL goes to Until,
+// a relative one to UntilOffset, whatever form the ASOF has (and vice versa); a bound that is not given is left alone.
+//@ func (*Query).applyTimeRange
+//@   requires q != nil && stmt != nil
+//@   modifies q.AsOf, q.AsOfOffset, q.Until, q.UntilOffset
+//@   capture tt Int = result 0 of call stringToTimeOrDuration
+//@   capture dd Int = result 1 of call stringToTimeOrDuration
+//@   ensures until_by_its_own_form: result == nil && stmt.TimeRange.To != "" ==> captured(tt) && (abs(tt) != 0 ? q.Until == tt && q.UntilOffset == old(q.UntilOffset) : q.UntilOffset == dd && q.Until == old(q.Until))
+//@   ensures asof_by_its_own_form: result == nil && stmt.TimeRange.To == "" && stmt.TimeRange.From != "" ==> captured(tt) && (abs(tt) != 0 ? q.AsOf == tt && q.AsOfOffset == old(q.AsOfOffset) : q.AsOfOffset == dd && q.AsOf == old(q.AsOf))
+//@   ensures absent_until_untouched: stmt.TimeRange.To == "" ==> q.Until == old(q.Until) && q.UntilOffset == old(q.UntilOffset)
+//@   ensures absent_asof_untouched: stmt.TimeRange.From == "" ==> q.AsOf == old(q.AsOf) && q.AsOfOffset == old(q.AsOfOffset)
+//@ func stringToTimeOrDuration
+//@   modifies nothing
